@@ -91,6 +91,9 @@ def gen_plan(rng: random.Random, tier: str) -> dict:
             req_names = list(names)
             if rng.random() < 0.5:
                 req_names += rng.sample(PROXY_NAMES, rng.randint(1, 2))
+            if rng.random() < 0.12:
+                # a viewer (or a script driving one) may list a name more than once
+                req_names.append(rng.choice(req_names))
             rng.shuffle(req_names)
             grant = {}
             for nm in names:
